@@ -15,6 +15,7 @@ fn ty_json(t: &Option<Ty>) -> Value {
 
 pub fn c07(_args: &Args, reg: &[TypeEntry], log: &mut Log) {
     for e in reg {
+        log.start(&e.id, &e.rust);
         let decl = guarded(e.decl);
         let name = guarded(e.name);
         let decl_concrete = guarded(e.decl_concrete);
